@@ -1,5 +1,5 @@
 # replay of a bounded stand-in violation (C06): re-run native/c06_measure.py
 import sys
-print('fock sampled homodyne(phi=1.571) on mode 1 of 2: the sampling distribution has mean -0.2641, variance 2.0515; the Born distribution of x_phi has mean 0.2641, variance 2.0533')
+print('post-selected heterodyne on mode 0 of 3: gaussian and bosonic conditional states differ (max 0.232)')
 print('REPLAY-VIOLATION')
 sys.exit(1)
